@@ -39,6 +39,7 @@ class Skel:
         self.tags = set()
         self.want = "0"     # operation the decoder is asked to recognise (0 = any)
         self.pair = False   # non-interference: assemble the same text on a second instance with other options
+        self.alt_parts = None  # C16: a second spelling of the same line, assembled with the same options
 
     # ---- inputs -------------------------------------------------------
     def reg(self, mask, letter="r"):
@@ -76,15 +77,17 @@ class Skel:
         return self
 
     def tnum(self, k, style, neg=False):
-        """style: hex (1-15 digits), hex16, dec (>=2 digits)"""
+        """style: hex (1-15 digits), hexz (the same with leading zeros, < 16 digits), hex16, dec (>=2 digits)"""
         self.parts.append(("n", k, style, neg))
         if style == "hex":
             self.decl.append("ASSUME(N%d < (1ul << 60));" % k)
+        if style == "hexz":
+            self.decl.append("ASSUME(N%d < (1ul << 48));" % k)
         return self
 
-    def text(self):
+    def text(self, parts=None):
         out = ""
-        for p in self.parts:
+        for p in (self.parts if parts is None else parts):
             if p[0] == "s":
                 out += p[1]
             elif p[0] == "r":
@@ -94,6 +97,8 @@ class Skel:
                 d = str(k + 1)
                 if style == "hex":
                     lit = "0x" + d * 4
+                elif style == "hexz":
+                    lit = "0x000" + d * 4
                 elif style == "hex16":
                     lit = "0x" + d * 16
                 else:
@@ -101,11 +106,11 @@ class Skel:
                 out += ("-" if neg else "") + lit
         return out
 
-    def replay_text_code(self):
+    def replay_text_code(self, parts=None, var="vf_text", tag=""):
         fmt = ""
         args = []
         pre = []
-        for i, p in enumerate(self.parts):
+        for i, p in enumerate(self.parts if parts is None else parts):
             if p[0] == "s":
                 fmt += p[1].replace("%", "%%")
             elif p[0] == "r":
@@ -113,13 +118,13 @@ class Skel:
                 args.append("vf_regname(R%d)" % p[1])
             else:
                 _, k, style, neg = p
-                st = {"hex": 0, "hex16": 1, "dec": 2}[style]
-                pre.append("char nb%d[40]; vf_fmt_num(nb%d, %d, %d);" % (i, i, k, st))
+                st = {"hex": 0, "hex16": 1, "dec": 2, "hexz": 3}[style]
+                pre.append("char nb%s%d[40]; vf_fmt_num(nb%s%d, %d, %d);" % (tag, i, tag, i, k, st))
                 fmt += ("-" if neg else "") + "%s"
-                args.append("nb%d" % i)
+                args.append("nb%s%d" % (tag, i))
         code = "\n  ".join(pre)
-        code += '\n  snprintf(vf_text, sizeof vf_text, "%s%s\\n"%s);' % (
-            c_escape(self.extra_lines_before), c_escape(fmt), "".join(", " + a for a in args))
+        code += '\n  snprintf(%s, sizeof vf_text, "%s%s\\n"%s);' % (
+            var, c_escape(self.extra_lines_before), c_escape(fmt), "".join(", " + a for a in args))
         return code
 
     # ---- emit ---------------------------------------------------------
@@ -173,6 +178,36 @@ class Skel:
                 L.append("      " + p)
             L.append("    }")
             L.append("    vf_frame_check(al, start, end, rc);")
+            L.append("  }")
+        if self.alt_parts is not None:
+            L.append("  {")
+            L.append("    static uint8_t buf2[BUFN]; static char vf_text2[256];")
+            L.append("    for (int i = 0; i < BUFN; i++) buf2[i] = vf_shadow[i];")
+            L.append("    assemblyline_t al2 = asm_create_instance(buf2, BUFN);")
+            L.append("    ASSUME(al2 != NULL);")
+            L.append("    asm_mov_imm(al2, (enum asm_opt)vf_opt_mv); asm_sib_index_base_swap(al2, (enum asm_opt)vf_opt_sw); asm_sib_no_base(al2, (enum asm_opt)vf_opt_nb);")
+            L.append("    asm_set_offset(al2, start);")
+            L.append("#ifdef VF_CBMC")
+            L.append('    strcpy(vf_text2, "%s\\n");' % c_escape(self.extra_lines_before + self.text(self.alt_parts)))
+            L.append("#else")
+            L.append("    " + self.replay_text_code(self.alt_parts, "vf_text2", "b"))
+            L.append('    printf("TEXT2 %s", vf_text2);')
+            L.append("#endif")
+            L.append("    int rc2 = asm_assemble_str(al2, vf_text2);")
+            L.append("    int end2 = asm_get_offset(al2);")
+            L.append("#ifndef VF_CBMC")
+            L.append('    printf("RC2 %d BYTES2", rc2); for (int i = start; rc2 == 0 && i < end2 && i < BUFN; i++) printf(" %02x", buf2[i]); printf("\\n");')
+            L.append("#endif")
+            L.append('    CHECK(rc == rc2, "both spellings are accepted or both rejected");')
+            L.append("    if (rc == EXIT_SUCCESS && rc2 == EXIT_SUCCESS) {")
+            L.append('      CHECK(end == end2, "both spellings give code of the same length");')
+            L.append("#ifdef VF_CBMC")
+            L.append("      unsigned q = nondet_uint(); __CPROVER_assume(q < BUFN);")
+            L.append('      CHECK(vf_buf[q] == buf2[q], "both spellings give identical bytes");')
+            L.append("#else")
+            L.append('      for (int q = 0; q < BUFN; q++) CHECK(vf_buf[q] == buf2[q], "both spellings give identical bytes");')
+            L.append("#endif")
+            L.append("    }")
             L.append("  }")
         if self.pair:
             L.append("  {")
